@@ -1,5 +1,9 @@
 import IncrVerif.Proofs.TidyH8
 import IncrVerif.Proofs.TidyH2
+import IncrVerif.Proofs.TidyH17
+import IncrVerif.Proofs.TidyH30
+import IncrVerif.Proofs.TidyH54
+import IncrVerif.Proofs.TidyH67
 import IncrVerif.Props.C15History
 import IncrVerif.Props.C01MapRef
 /-!
@@ -41,8 +45,49 @@ from the drain invariant, and every `recomputeOne` of the drain happens in a sta
 history.  The proof is `Sched.drain_once` redone over an abstract drain invariant (`TidyH.OnceKit`), instantiated with
 `MapRefH.DInvR` / `MapOldH.DInvW` (whose scheduling invariant lives on the virtual state).
 
-ASSUMED.  T2c/T1a/T2a are partial-correctness statements (the `stabilise` returns); hypotheses are those of the fragments
-(`Props/C15History.lean`, `Props/C01MapRef.lean`).
+T1b — TOTAL CORRECTNESS, fragment static + `map_ref` (`Proofs/TidyH55…67`).  `mapref_history_never_panics`: a valid
+history (`RT.ValidHistR` = `Quiet.ValidHist` of the virtual history: the same room `nodes ≤ N` and fuel
+`3 * nodes + 4 ≤ fuelDefault` as for static programs, plus an existing operand for `create (mapRef p i)`) of the fragment
+never panics; `mapref_action_returns`, `mapref_stabilise_returns`, `mapref_valid_history_stabilise` (C01 with map_ref,
+unconditionally).  METHOD: `RT.BSimAt P g s x x'` = forward simulation ∧ converse, carrying an invariant `P`; the pieces
+that exist only in the actual engine are proved to return by hand: `markMapRefUnknown` (fuel `N ≤ fuel + n`; recorded
+parents have larger indices — derived from the invariant of the virtual state at the start of each phase) inside the
+linking cascade (`N + 2n + 2 ≤ fuel`), `child_changed` through chains of map_ref nodes (drain fuel invariant
+`unrun + size + 2 ≤ fuel`), the map_ref node's own step (`Sched.mcvm_safe` on the virtual notification walk).
+
+T2b — TOTAL CORRECTNESS, fragment static + `map_with_old` (`Proofs/TidyH9…17`).  `mapold_history_never_panics`,
+`mapop_history_never_panics`: a VALID history (`WT.ValidHistW N 0 0 0 0 acts`, decidable: operands name existing
+top-level nodes, observer/variable indices exist, never more than `N` = height limit nodes — `create (mapOp …)` adds 3
+nodes, 5 for merge —, `3 * nodes + 4 ≤ fuelDefault` at every `stabilise`) of actions of the fragment NEVER PANICS from
+`State.init N d`; the final state satisfies `QInvW` and `WT.TInvW` (= `Quiet.TInv` without `top.size = nodes.size`, which
+is false after a `mapOp` creation).  `mapold_action_returns`, `mapold_stabilise_returns`; `valid_history_operator_calls`:
+hence C15/C17 unconditionally at every `stabilise` of a valid history.  METHOD: an EXACT simulation
+`WT.SimAt s x x'` (same outcome — result or the same panic — from `s` and from `virt s`, final states related by `virt`)
+for every engine function except the recompute of a map_with_old node; totality of the static fragment
+(`Proofs/Quiet20…28`, `Sched10…13`) transfers through it (`WT.SimAt.tot`); the operator node's step: master equation +
+`Sched.mcvm_safe` on the virtual notification walk.
+
+T3 — TOTAL CORRECTNESS, subscriptions (`Proofs/TidyH18…24`) and write effects (`Proofs/TidyH25…30`).
+`subs_history_never_panics`: a valid history (`SubsT.ValidHistS` = `Quiet.ValidHist` + every `subscribe` names an existing
+observer) of the fragment of `Props/C09History.lean` never panics; `subs_valid_history_notifications`: hence every token
+receives exactly its specified updates.  `effects_history_never_panics`: a valid history (`EffT.ValidHistW N B`:
+additionally, at every `stabilise` all variables that functions/handlers may write — indices `< B`, `EffT.FnBound`,
+`EffT.HBound` — exist) of the fragment V3 of `Props/C08History.lean` never panics; `effects_valid_history_stabilise`.
+Each validity clause is necessary (kernel-checked witnesses: `subscribe` on a missing observer, a write to a missing
+variable panic in the model).  No bound on the `is_stable` loop is claimed.
+
+T4 — TOTAL CORRECTNESS, expert fragment X1 of `Props/C14History.lean` (`Proofs/TidyH31…54`).
+`expert_history_never_panics`: a valid run (`XT.ValidRun`: `ExpertH.RunOK` — incl. the acyclicity hypothesis `AddDepOK` of
+every `addDep` — plus existing indices, `nodes.size ≤ N`, `3 * nodes + 4 ≤ fuelDefault` for `stabilise`/`addDep`) never
+panics; `expert_addDep_returns` (`adjustHeights` terminates: ranks increase along recorded parent edges, every node is
+popped at most once, heights stay `≤ depth + 1 ≤ nodes.size ≤ N`); `expert_valid_history_stabilise`.  METHOD: converse
+simulation `XT.SimRAt` (virtual run ok ⇒ actual run ok) mirroring `ExpertH23…31`, and ports of `Quiet21…28` onto the
+ranked invariants `ExpertH.QR.*` with the height bound by DEPTH.  `ValidRun` is state-dependent (acyclicity is a property
+of the current graph); `XT.validRunB` is a checker that runs the model.
+
+ASSUMED.  T2c/T1a/T2a are partial-correctness statements (the `stabilise` returns) — unconditional for valid histories by
+T1b/T2b.  Hypotheses are those of the fragments (`Props/C15History.lean`, `Props/C01MapRef.lean`, `Props/C09History.lean`,
+`Props/C08History.lean`).
 -/
 namespace IncrVerif.Props.C17History
 open IncrVerif IncrVerif.Engine IncrVerif.Driver IncrVerif.MapOps IncrVerif.Proofs IncrVerif.Proofs.Sched
@@ -289,6 +334,76 @@ theorem history_once_mapold {env : Env} {C : Val → Prop} {sp : Nat → Val →
   obtain ⟨t1, t2, t3, -, -, -, -, -, hnd, hall⟩ := stabilise_onceW V Q1 h2
   exact ⟨s1, tk1, s2, t2, h1, h2, h6, hnd, fun m hm => ⟨(hall m hm).2.1, (hall m hm).2.2.2⟩⟩
 
+/-! ### T2b: total correctness, fragment static + `map_with_old` -/
+
+/-- **one action returns**: every action of the fragment whose indices exist (`WT.ActionOKW`: operands name top-level
+nodes, observers/variables exist, room for the 1/3/5 new nodes of a creation, `3 * nodes + 4 ≤ fuelDefault` for a
+`stabilise`) returns and keeps the invariants. -/
+theorem mapold_action_returns {env : Env} {C : Val → Prop} {sp : Nat → Val → Val} {N : Nat} {s : State} {a : Action}
+    {tk : Array Nat} (V : ValOK env C sp) (Q : QInvW env C sp s) (T : WT.TInvW N s) (ha : WAction env C sp a)
+    (hok : WT.ActionOKW N s a) :
+    ∃ r s', (stepAction env a tk).run.run s = (.ok r, s') ∧ r.2 = tk ∧ QInvW env C sp s' ∧ WT.TInvW N s' ∧
+      WT.GrownW a s s' :=
+  WT.step_totalW V Q T ha hok
+
+/-- **`stabilise` returns** (fragment static + map_with_old, pending observers allowed). -/
+theorem mapold_stabilise_returns {env : Env} {C : Val → Prop} {sp : Nat → Val → Val} {N fuel : Nat} {s : State}
+    (V : ValOK env C sp) (Q : QInvW env C sp s) (T : WT.TInvW N s) (hf : 3 * s.nodes.size + 4 ≤ fuel) :
+    ∃ s', (stabilise env fuel).run.run s = (.ok (), s') ∧ WT.TInvW N s' ∧ StabilisedW env C sp fuel s s' := by
+  obtain ⟨_, s', h, T', -⟩ := WT.stabiliseW_total V Q T hf
+  exact ⟨s', h, T', stabiliseW V Q h⟩
+
+/-- **T2b: a valid history of the fragment static + map_with_old never panics** (`WT.ValidHistW N 0 0 0 0 acts`,
+decidable: every operand names an existing top-level node, every observer / variable index exists, the number of nodes
+never exceeds `N` = the height limit — a `mapOp` creation adds 3 nodes, 5 for merge —, `3 * nodes + 4 ≤ fuelDefault` at
+every `stabilise`). -/
+theorem mapold_history_never_panics {env : Env} {C : Val → Prop} {sp : Nat → Val → Val} {N : Nat} {d : Bool}
+    {acts : List Action} (V : ValOK env C sp) (ha : ∀ a, a ∈ acts → WAction env C sp a)
+    (hv : WT.ValidHistW N 0 0 0 0 acts) :
+    ∃ s', runActions env acts (State.init N d) #[] = .ok (s', #[]) ∧ QInvW env C sp s' ∧ WT.TInvW N s' :=
+  WT.history_totalW V ha hv
+
+/-- the same for definition tables: actions pass `okAction d`, the history is valid -/
+theorem mapop_history_never_panics (d : Defs) {N : Nat} {dbg : Bool} {acts : List Action}
+    (ha : ∀ a, a ∈ acts → okAction d a = true) (hv : WT.ValidHistW N 0 0 0 0 acts) :
+    ∃ s', runActions d.toEnv acts (State.init N dbg) #[] = .ok (s', #[]) ∧ DInv d s' ∧ WT.TInvW N s' :=
+  WT.mapop_history_never_panics d ha hv
+
+/-- hence, UNCONDITIONALLY for valid histories: every `stabilise` of a valid history of map operators returns, after it
+every in-use observer reads the operators' definitions (`C15History.mapop_history_every_stabilise`), and the
+user-function events of every operator node in its log are exactly `opCalls` of (input last run on, current input)
+(`history_operator_calls`). -/
+theorem valid_history_operator_calls (d : Defs) {N : Nat} {dbg : Bool} {as bs : List Action} {n g i : Nat}
+    (hg : opBase ≤ g) (ha : ∀ a, a ∈ as ++ Action.stabilise :: bs → okAction d a = true)
+    (hv : WT.ValidHistW N 0 0 0 0 (as ++ Action.stabilise :: bs)) :
+    ∃ s1 tk1 s2 s new, runActions d.toEnv as (State.init N dbg) #[] = .ok (s1, tk1) ∧
+      (stabilise d.toEnv fuelDefault).run.run s1 = (.ok (), s2) ∧ runActions d.toEnv bs s2 tk1 = .ok (s, #[]) ∧
+      ReadsOKW d.toEnv (machSpec d) s2 ∧ s2.log = new ++ s1.log ∧
+      ((s1.nodeD n).kind = .mapWithOld g i →
+        ((s2.nodeD n).recomputedAt ≠ s1.stabNum → callsAt n new = []) ∧
+        ((s2.nodeD n).recomputedAt = s1.stabNum → ∃ x, (s2.nodeD i).value = some x ∧ Canon x ∧
+          callsAt n new = callEvents n (opCalls d g (s1.nodeD n).oldState (s1.nodeD n).value x))) := by
+  obtain ⟨s, h, -, -⟩ := WT.mapop_history_never_panics d (dbg := dbg) ha hv
+  obtain ⟨s1, tk1, s2, new, h1, h2, h3, e, hc⟩ := history_operator_calls d (n := n) (i := i) hg ha h
+  obtain ⟨s1', tk1', s2', h1', h2', -, hr, -, -, -⟩ := C15History.mapop_history_every_stabilise d ha h
+  rw [h1] at h1'
+  cases h1'
+  rw [h2] at h2'
+  cases h2'
+  exact ⟨s1, tk1, s2, s, new, h1, h2, h3, hr, e, hc⟩
+
+/-- `C15History.histFm` and `histMerge` are valid (decided, not run) — so they never panic, by the theorem -/
+example : WT.ValidHistW 128 0 0 0 0 C15History.histFm ∧ WT.ValidHistW 128 0 0 0 0 C15History.histMerge :=
+  ⟨by decide, by decide⟩
+
+example : ∃ s, runActions C15History.exD.toEnv C15History.histFm (State.init 128 true) #[] = .ok (s, #[]) ∧
+    DInv C15History.exD s ∧ WT.TInvW 128 s :=
+  mapop_history_never_panics C15History.exD
+    (fun a h => List.all_eq_true.1 (by decide : C15History.histFm.all (okAction C15History.exD) = true) a h) (by decide)
+
+/-- validity is needed: with room for 6 nodes only, `histFm` (7 nodes) is not valid -/
+example : ¬ WT.ValidHistW 6 0 0 0 0 C15History.histFm := by decide
+
 end mapold
 
 /-! ## T1a: at most once per round, fragment static + `map_ref` -/
@@ -329,6 +444,202 @@ theorem history_once_mapref {env : Env} {N : Nat} {d : Bool} {as bs : List Actio
   obtain ⟨t1, t2, t3, -, -, -, -, -, hnd, hall⟩ := stabilise_onceR Q1 h2
   exact ⟨s1, tk1, s2, t2, h1, h2, h6, hnd, fun m hm => ⟨(hall m hm).2.1, (hall m hm).2.2.2⟩⟩
 
+/-! ### T1b: total correctness, fragment static + `map_ref` -/
+
+/-- **T1b: a valid history of the fragment static + map_ref never panics.**  `RT.ValidHistR N 0 0 0 acts` is
+`Quiet.ValidHist` of the virtual history (`RT.validHistR_iff`): existing operands (now also the operand of
+`create (mapRef p i)`), observers and variables, at most `N` = height limit nodes, `3 * nodes + 4 ≤ fuelDefault` at every
+`stabilise` — the SAME room and fuel as for static programs: the recursions that exist only in the actual engine
+(`markMapRefUnknown` through the parents of map_ref nodes in the linking cascade, `child_changed` through chains of
+map_ref nodes in the drain) fit into that fuel. -/
+theorem mapref_history_never_panics {env : Env} {N : Nat} {d : Bool} {acts : List Action}
+    (ha : ∀ a, a ∈ acts → MapRefAction env a) (hv : RT.ValidHistR N 0 0 0 acts) :
+    ∃ s', runActions env acts (State.init N d) #[] = .ok (s', #[]) ∧ QInvRE env s' ∧ TInv N s' :=
+  RT.historyR_total ha hv
+
+/-- one action of the fragment whose indices exist returns and keeps the invariants -/
+theorem mapref_action_returns {env : Env} {g : Nat → Option Val} {N : Nat} {s : State} {a : Action} {tk : Array Nat}
+    (Q : QInvR env s g) (T : TInv N s) (ha : MapRefAction env a) (hok : RT.ActionOKR N s a) :
+    ∃ r s', (stepAction env a tk).run.run s = (.ok r, s') ∧ r.2 = tk ∧ QInvRE env s' ∧ TInv N s' ∧ Grown a s s' :=
+  RT.stepR_total Q T ha hok
+
+/-- **`stabilise` returns** (fragment static + map_ref, pending observers allowed), and all of M2 holds for the result -/
+theorem mapref_stabilise_returns {env : Env} {g : Nat → Option Val} {N fuel : Nat} {s : State} (Q : QInvR env s g)
+    (T : TInv N s) (hf : 3 * s.nodes.size + 4 ≤ fuel) :
+    ∃ s' g', (stabilise env fuel).run.run s = (.ok (), s') ∧ StabilisedR env fuel s s' g g' ∧ TInv N s' := by
+  obtain ⟨_, s', h, ⟨g', R⟩, T'⟩ := RT.stabiliseR_total Q T hf
+  exact ⟨s', g', h, R, T'⟩
+
+/-- **C01 for programs with map_ref, total form**: at every `stabilise` of a VALID history (no assumption that anything
+returns) the prefix runs, the `stabilise` returns, afterwards every observer in use reads the from-scratch value of its
+node, no necessary node is stale; the rest runs. -/
+theorem mapref_valid_history_stabilise {env : Env} {N : Nat} {d : Bool} {as bs : List Action}
+    (ha : ∀ a, a ∈ as ++ Action.stabilise :: bs → MapRefAction env a)
+    (hv : RT.ValidHistR N 0 0 0 (as ++ Action.stabilise :: bs)) :
+    ∃ s1 s2 s, runActions env as (State.init N d) #[] = .ok (s1, #[]) ∧ QInvRE env s1 ∧
+      (stabilise env fuelDefault).run.run s1 = (.ok (), s2) ∧ QInvRE env s2 ∧
+      ReadsOKR env s2 ∧ ObsSettled s2 ∧ (∀ n, s2.isNecessary n = true → s2.isStale n = false) ∧
+      runActions env bs s2 #[] = .ok (s, #[]) :=
+  RT.historyR_total_stabilise ha hv
+
+/-- the corpus histories of the repaired defects D1 and D15 are valid (decided, not run), hence never panic — in debug
+and in release mode — by the theorem -/
+example (d : Bool) :
+    (∃ s', runActions C01MapRef.exEnvM C01MapRef.histD1 (State.init 128 d) #[] = .ok (s', #[]) ∧
+      QInvRE C01MapRef.exEnvM s' ∧ TInv 128 s') ∧
+    (∃ s', runActions C01MapRef.exEnvM C01MapRef.histD15 (State.init 128 d) #[] = .ok (s', #[]) ∧
+      QInvRE C01MapRef.exEnvM s' ∧ TInv 128 s') :=
+  ⟨mapref_history_never_panics C01MapRef.histD1_ok RT.histD1_valid,
+   mapref_history_never_panics C01MapRef.histD15_ok RT.histD15_valid⟩
+
 end mapref
+
+/-! ## T3: total correctness for the subscription and the write-effect fragments -/
+
+section subs
+open IncrVerif.Proofs.SubsH IncrVerif.Proofs.TidyH.SubsT
+
+/-- **T3a: a valid history of the fragment static + subscriptions never panics** (`Props/C09History.lean`: handlers
+without effects, `SubsH.PureHandlers`).  `SubsT.ValidHistS` = `Quiet.ValidHist` (indices exist, at most `N` nodes,
+`3 * nodes + 4 ≤ fuelDefault` at every `stabilise`) plus: every `subscribe` names an existing observer (`unsubscribe` /
+`stateUnsub` need nothing: an unknown token is a no-op, the recorded owner of an issued token exists — `SubsT.TokIn`). -/
+theorem subs_history_never_panics {env : Env} {N : Nat} {d : Bool} {acts : List Action}
+    (heff : PureHandlers env) (ha : ∀ a, a ∈ acts → SubAction env a) (hv : ValidHistS N 0 0 0 acts) :
+    ∃ s' tk', runActions env acts (State.init N d) #[] = .ok (s', tk') ∧ UInv env s' ∧ TInv N s' ∧ TokIn tk' s' :=
+  SubsT.history_total heff ha hv
+
+/-- one action of the fragment returns -/
+theorem subs_action_returns {env : Env} {N : Nat} {s : State} {a : Action} {tk : Array Nat}
+    (U : UInv env s) (T : TInv N s) (K : TokIn tk s) (heff : PureHandlers env) (ha : SubAction env a)
+    (hok : ActionOK N s a) (hsub : SubsOK s a) :
+    ∃ r s', (stepAction env a tk).run.run s = (.ok r, s') ∧ UInv env s' ∧ TInv N s' ∧ TokIn r.2 s' ∧ Grown a s s' :=
+  SubsT.step_total U T K heff ha hok hsub
+
+/-- hence C09 UNCONDITIONALLY for valid histories: the history runs, and for EVERY token the logged updates are exactly
+the specified ones, `Initialised` once and first, then only `Changed` -/
+theorem subs_valid_history_notifications {env : Env} {N : Nat} {d : Bool} {acts : List Action}
+    (heff : PureHandlers env) (ha : ∀ a, a ∈ acts → SubAction env a) (hv : ValidHistS N 0 0 0 acts) :
+    ∃ s' tk', runActions env acts (State.init N d) #[] = .ok (s', tk') ∧ UInv env s' ∧ TInv N s' ∧
+      ∀ t, tokLog t s'.log = specT env t acts (State.init N d) #[] [] ∧ Shape (tokLog t s'.log) :=
+  SubsT.valid_history_notifications heff ha hv
+
+/-- the example histories of `Props/C09History.lean` are valid (decided), hence never panic by the theorem; `subscribe`
+on an observer that does not exist panics in the model and is rejected by the validity checker -/
+example : ValidHistS 128 0 0 0 C09History.exHist ∧ ValidHistS 128 0 0 0 C09History.exHist2 ∧
+    ValidHistS 128 0 0 0 SubsT.exHist3 := ⟨SubsT.exHist_valid, SubsT.exHist2_valid, SubsT.exHist3_valid⟩
+
+example : ∃ s' tk', runActions Step.exEnv C09History.exHist (State.init 128 true) #[] = .ok (s', tk') ∧
+    UInv Step.exEnv s' ∧ TInv 128 s' ∧ TokIn tk' s' :=
+  subs_history_never_panics C09History.exEnv_pure C09History.exHist_ok SubsT.exHist_valid
+
+example : SubsT.ranOk Step.exEnv [.subscribe 0 0] = false ∧ SubsT.validHistB 128 0 0 0 [.subscribe 0 0] = false :=
+  ⟨by decide +kernel, by decide +kernel⟩
+
+end subs
+
+section effects
+open IncrVerif.Proofs.EffH IncrVerif.Proofs.TidyH.SubsT IncrVerif.Proofs.TidyH.EffT
+
+/-- **T3b: a valid history of the write-effects fragment never panics** (`Props/C08History.lean`, V3: node functions and
+update handlers that WRITE variables: `WOnly env`, `WHandlers env`).  `EffT.FnBound env B` / `EffT.HBound env B`: every
+variable a function / a handler may write has index `< B`; `EffT.ValidHistW N B` = `SubsT.ValidHistS` plus: at every
+`stabilise` at least `B` variables exist (a write to a variable that does not exist panics: `EffT.exBad`).  Only single
+actions are claimed to return — the `is_stable` loop of a program is not bounded (a function that writes a variable it
+depends on never stabilises). -/
+theorem effects_history_never_panics {env : Env} {N B : Nat} {d : Bool} {acts : List Action}
+    (hw : WOnly env) (hH : WHandlers env) (hFb : FnBound env B) (hHb : HBound env B)
+    (ha : ∀ a, a ∈ acts → WAction env a) (hv : EffT.ValidHistW N B 0 0 0 acts) :
+    ∃ s' tk', runActions env acts (State.init N d) #[] = .ok (s', tk') ∧ UInvE env s' ∧ TInv N s' ∧ TokIn tk' s' :=
+  EffT.history_total_w hw hH hFb hHb ha hv
+
+/-- one action of the fragment returns -/
+theorem effects_action_returns {env : Env} {N B : Nat} {s : State} {a : Action} {tk : Array Nat}
+    (hw : WOnly env) (hH : WHandlers env) (hFb : FnBound env B) (hHb : HBound env B) (UE : UInvE env s)
+    (T : TInv N s) (K : TokIn tk s) (ha : WAction env a) (hok : ActionOK N s a) (hsub : SubsOK s a)
+    (hstab : StabOK B s a) :
+    ∃ r s', (stepAction env a tk).run.run s = (.ok r, s') ∧ UInvE env s' ∧ TInv N s' ∧ TokIn r.2 s' ∧ Grown a s s' :=
+  EffT.step_total_w hw hH hFb hHb UE T K ha hok hsub hstab
+
+/-- hence V3 of `Props/C08History.lean` UNCONDITIONALLY at every `stabilise` of a valid history -/
+theorem effects_valid_history_stabilise {env : Env} {N B : Nat} {d : Bool} {as bs : List Action}
+    (hw : WOnly env) (hH : WHandlers env) (hFb : FnBound env B) (hHb : HBound env B)
+    (ha : ∀ a, a ∈ as ++ Action.stabilise :: bs → WAction env a)
+    (hv : EffT.ValidHistW N B 0 0 0 (as ++ Action.stabilise :: bs)) :
+    ∃ s1 tk1 s2 t2 t3 s tk, runActions env as (State.init N d) #[] = .ok (s1, tk1) ∧ UInvE env s1 ∧
+      (stabilise env fuelDefault).run.run s1 = (.ok (), s2) ∧ WStab env fuelDefault s1 t2 t3 s2 ∧
+      runActions env bs s2 tk1 = .ok (s, tk) ∧ UInvE env s :=
+  EffT.valid_history_stabilise_w hw hH hFb hHb ha hv
+
+/-- the example of `Props/C08History.lean` (a function writes `v1`, the handler writes it twice) is valid, hence never
+panics by the theorem; a `stabilise` before the written variable exists panics and is rejected by the checker -/
+example : EffT.ValidHistW 128 2 0 0 0 C08History.exHistH := EffT.exHistH_valid
+
+example : SubsT.ranOk C08History.exEnvH EffT.exBad = false ∧ EffT.validHistWB 128 2 0 0 0 EffT.exBad = false :=
+  ⟨by decide +kernel, by decide +kernel⟩
+
+end effects
+
+/-! ## T4: total correctness for the expert fragment X1 (top-level `addDep`) -/
+
+section expert
+open IncrVerif.Proofs.ExpertH IncrVerif.Proofs.TidyH.XT
+-- (`ExpertH.QR` has its own copies of `runActions`, `ObsSettled`: same definitions, rank-ordered development)
+
+/-- the copy of `runActions` in the rank-ordered development is `Quiet.runActions` -/
+theorem qr_runActions_eq (env : Env) (acts : List Action) (s : State) (tk : Array Nat) :
+    QR.runActions env acts s tk = Quiet.runActions env acts s tk := by
+  induction acts generalizing s tk with
+  | nil => rfl
+  | cons a as ih =>
+    simp only [QR.runActions, Quiet.runActions]
+    rcases (stepAction env a tk).run.run s with ⟨_ | r, s'⟩
+    · rfl
+    · exact ih s' r.2
+
+/-- **T4: a valid history of fragment X1 never panics.**  `XT.ValidRun env N acts s tk`: `ExpertH.RunOK` (every action,
+in the state in which it is executed, is an action of X1: static actions, `create (expert f)` with a "sum" closure,
+`addDep e c cb` under `ExpertH.AddDepOK` = the new edge closes no cycle, `stabilise`) plus `XT.ActionOKx N s a` (indices
+exist; a creation leaves `nodes.size + 1 ≤ N`; `stabilise` and `addDep` have `3 * nodes.size + 4 ≤ fuelDefault`).  No
+"cyclic" panic, no "height-limit" (the room condition `nodes.size ≤ N` is tight: a chain built by `addDep` reaches height
+`nodes.size`), no assertion, no `model:` error, the fuel suffices — for both `cfg.debug` settings.  `XT.TInvX N s`: every
+necessary node has height `≤ dp + 1` (`XT.dp` = the DEPTH, the longest child chain below the node — the bound that
+survives the re-ranking of `addDep`), both heaps have `N + 1` buckets, `nodes.size ≤ N`, … -/
+theorem expert_history_never_panics {env : Env} {N : Nat} {d : Bool} {acts : List Action}
+    (hv : ValidRun env N acts (State.init N d) #[]) :
+    ∃ s' tk', QR.runActions env acts (State.init N d) #[] = .ok (s', tk') ∧ (∃ rk, QInvX env rk s') ∧ TInvX N s' :=
+  history_never_panicsX hv
+
+/-- one valid action of X1 returns and keeps both invariants -/
+theorem expert_action_returns {env : Env} {rk : Nat → Nat} {N : Nat} {s : State} {a : Action} {tk : Array Nat}
+    (Q : QInvX env rk s) (T : TInvX N s) (ha : XActionOK env s a) (hok : ActionOKx N s a) :
+    ∃ r s', (stepAction env a tk).run.run s = (.ok r, s') ∧ r.2 = tk ∧ (∃ rk', QInvX env rk' s') ∧ TInvX N s' ∧
+      GrownX a s s' :=
+  step_totalX Q T ha hok
+
+/-- **`addDep` returns** under the acyclicity hypothesis: the linking cascade and `adjustHeights` terminate without
+panic -/
+theorem expert_addDep_returns {env : Env} {rk : Nat → Nat} {N : Nat} {s : State} {eo co : Opnd} {cb : Bool}
+    {tk : Array Nat} (Q : QInvX env rk s) (T : TInvX N s) (ha : AddDepOK s eo co)
+    (hok : ActionOKx N s (.addDep eo co cb)) :
+    ∃ r s', (stepAction env (.addDep eo co cb) tk).run.run s = (.ok r, s') ∧ r.2 = tk ∧
+      (∃ rk', QInvX env rk' s') ∧ TInvX N s' ∧ GrownX (.addDep eo co cb) s s' :=
+  addDep_action_totalX Q T ha hok
+
+/-- hence `C14History.history_every_stabilise` UNCONDITIONALLY at every `stabilise` of a valid history -/
+theorem expert_valid_history_stabilise {env : Env} {N : Nat} {d : Bool} {as bs : List Action}
+    (hv : ValidRun env N (as ++ Action.stabilise :: bs) (State.init N d) #[]) :
+    ∃ s1 tk1 s2 rk1 s tk, QR.runActions env as (State.init N d) #[] = .ok (s1, tk1) ∧ QInvX env rk1 s1 ∧
+      (stabilise env fuelDefault).run.run s1 = (.ok (), s2) ∧ StabilisedX env rk1 fuelDefault s1 s2 ∧
+      ReadsOKX env s2 ∧ QR.ObsSettled s2 ∧ (∀ n, s2.isNecessary n = true → s2.isStale n = false) ∧
+      QR.runActions env bs s2 tk1 = .ok (s, tk) ∧ (∃ rk, QInvX env rk s) ∧ TInvX N s :=
+  valid_history_stabiliseX hv
+
+/-- `C14History.exHistX` (expert created before its dependencies, `addDep` with height adjustment 3 → 5/6, duplicate
+dependency) is a valid history — `XT.validRunB` evaluated by the kernel — hence never panics BY THE THEOREM -/
+example : ∃ s' tk', QR.runActions C14History.exEnvX C14History.exHistX (State.init 128 true) #[] = .ok (s', tk') ∧
+    (∃ rk, QInvX C14History.exEnvX rk s') ∧ TInvX 128 s' :=
+  expert_history_never_panics exHistX_valid
+
+end expert
 
 end IncrVerif.Props.C17History
